@@ -43,6 +43,15 @@ CLAIMS.update({
  'C03': ('real Filter objects (Filter.run/loop_once/process_frames/MQ/ZeroMQ code) in chain / tee / tee-rejoin / join topologies over a simulated network; link delay, processing times, start offsets are z3 integers and the discrete-event scheduler lets z3 decide event order (each path = a region of the timing-parameter space); every filter sees the functional composition incl. frame 0; plus None/{}/Frame/callable contract at unit level',
          'trusted: simulated ZeroMQ (routing, per-link FIFO, slow-joiner connect delay 40 ms for SUB), zero-time computation between blocking points, delays constant per link (no per-message jitter); bounds: 3-4 frames, 1 free timing parameter per query (quick) / 2 (thorough), ranges d 1-99 ms, speeds 0-3000 ms, offsets 0-2000 ms'),
 })
+CLAIMS.update({
+ 'C06': ('bounded liveness on the real code: real Filter objects in a chain over the simulated network, victim killed at a symbolic instant and restarted after 0 / short / > connection-timeout delays; sink must receive a new frame within CONN_TIMEOUT + 3 poll intervals and keep receiving, ids increasing per incarnation; plus unit-level recovery branches (fast-forward, CLOSE, time-out) from a symbolic client table',
+         'NOT claimed: unbounded "never deadlocks under any fair schedule" (only the stated schedule family and horizon). trusted: simulated ZeroMQ incl. PUSH queueing while the peer is down, hard-kill model (no clean-up code runs), fair discrete-event scheduling; bounds: chain of 3, kill instant range 200-900 ms, restart delays {0,300,2500,5600} ms'),
+})
+for k, extra in {'C01': ' System level: tee-rejoin (2-3 branches, one branch skipping a symbolic subset of ids) over the simulated network with symbolic processing times.',
+                 'C04': ' System level: producer (and relay) with a consumer that stops calling recv(): frames produced after the stall <= 9 for all producer speeds in the range.',
+                 'C05': ' System level: publisher + synchronized sink + stalled / killed ? or ?? listener compared (self-composition) with the same run without the listener: same frames at the same virtual instants.',
+                 'C07': ' System level: balanced splitter -> 2-3 workers with symbolic speeds -> balanced joiner: every frame on exactly one branch, joiner log ordered and duplicate free.'}.items():
+    CLAIMS[k] = (CLAIMS[k][0] + extra, CLAIMS[k][1] + '; system level: simulated network, delays constant per link, 1-2 free timing parameters per query')
 NA = {}
 props = [json.loads(l)['id'] for l in open(os.path.join(V, 'properties.jsonl'))]
 checks = []
